@@ -48,6 +48,8 @@ struct env_cfg {
     int fault_connect;       /* offer errno outcomes at connect completion */
     int sleep_monitor;       /* C05 monitor on */
     int only_task;           /* restrict I/O deviations to this task index (-1 = all) */
+    int stall_until_read;    /* a write stall ends only after the peer has read what was written (flow control);
+                                only for scenarios in which every endpoint keeps reading while it waits to write */
     int connpend_free;       /* the connect-latency alternative costs no deviation (C11: the life point
                                 "TCP handshake pending" is part of the enumerated history, not a deviation) */
 };
